@@ -6,7 +6,10 @@ package rx
 
 import (
 	"fmt"
+	"reflect"
 	"strings"
+
+	"verif/hlib"
 
 	"github.com/SAP/go-dblib/asetypes"
 	"github.com/SAP/go-dblib/tds"
@@ -113,6 +116,14 @@ func LibDesc(p tds.Package) string {
 			s += " " + valueDesc(d.Format().DataType(), d.Value())
 		}
 		return s
+	case *tds.EnvChangePackage:
+		out := "ENVCHANGE"
+		for _, f := range hlib.FindFields(x, reflect.TypeOf([]tds.EnvChangePackageField{})) {
+			for _, m := range f.Interface().([]tds.EnvChangePackageField) {
+				out += fmt.Sprintf(" (%d %q->%q)", uint8(m.Type), m.OldValue, m.NewValue)
+			}
+		}
+		return out
 	case *tds.HeaderOnlyPackage:
 		return "HEADERONLY " + x.String()
 	}
